@@ -184,7 +184,7 @@ def check(ctx):
             ctx.inst('R2', pu, 'rate-needs-field:table-row-%d' % _k, True, 'rows of the look-up table share the guard of the look-up')
         ctx.inst('R2', pu, 'rate-table', tbl == RATES, 'parse_uri rate table %s, expected %s' % (tbl, RATES))
         dr = []
-    ctx.need(lookups or len(dr) >= 4, 'parse_uri: datarate default + 3 table rows expected, found %d' % len(dr))
+    ctx.need(lookups or len(dr) >= 3, 'parse_uri: datarate default + table rows expected, found %d' % len(dr))
     # rows = assignments guarded by a comparison of the rate field with a literal; every other assignment is a default and must be 2M
     def row_lit(n):
         for f in g.facts_at(n):
@@ -202,7 +202,9 @@ def check(ctx):
       for n in rows:
         tbl[row_lit(n)] = norm(n.ast.value).split('.')[-1]
         ctx.inst('R2', pu, 'rate-needs-field:' + norm(n.ast.value), fact_key('len(parsed_path) > 1', True) in g.fact_keys_at(n), 'rate is read only if the field exists')
-      ctx.inst('R2', pu, 'rate-table', tbl == RATES, 'parse_uri rate table %s, expected %s' % (tbl, RATES))
+      # (a row for '2M' may be left to the default, which is 2M)
+      dflt_2m = bool(first) and all(norm(n.ast.value) == 'Crazyradio.DR_2MPS' for n in defaults)
+      ctx.inst('R2', pu, 'rate-table', tbl == RATES or (dflt_2m and dict(tbl, **{'2M': 'DR_2MPS'}) == RATES), 'parse_uri rate table %s, expected %s' % (tbl, RATES))
     ad = assigns('address')
     # the default address list is shared by every call: the override binds a new value, it never writes into the object it got
     inplace = [norm(n.ast)[:60] for n in g.nodes if n.kind == 'stmt' and (
@@ -272,7 +274,11 @@ def check(ctx):
             fwd = {k.value: norm(v).split('.')[-1] for k, v in tbl_ if isinstance(k, ast.Constant)}
         if key_txt == "f['datarate']" and not back and dflt_ is not None and isinstance(dflt_, ast.Constant) and dflt_.value == '':
             back = {v.value: norm(k).split('.')[-1] for k, v in tbl_ if isinstance(v, ast.Constant)}
-    ctx.inst('R4', ss, 'scan_selected-uri-to-rate', fwd == RATES, 'scan_selected URI->rate table %s' % fwd)
+    # the rate a URI gets when no row matches (rate left out - or '2M', when that row is left to the default) is 2M
+    dflts = [n for n in gs.nodes if n.kind == 'stmt' and isinstance(n.ast, ast.Assign) and norm(n.ast.targets[0]) == 'datarate' and
+             not any(f.op == '==' and f.pol and 'group(6)' in f.text for f in gs.facts_at(n))]
+    dflt_2m = bool(dflts) and all(norm(n.ast.value).split('.')[-1] == 'DR_2MPS' for n in dflts)
+    ctx.inst('R4', ss, 'scan_selected-uri-to-rate', fwd == RATES or (dflt_2m and '2M' not in fwd and dict(fwd, **{'2M': 'DR_2MPS'}) == RATES), 'scan_selected URI->rate table %s' % fwd)
     ctx.inst('R4', ss, 'scan_selected-rate-to-uri', back == RATES, 'scan_selected rate->URI table %s' % back)
     rx = [c for c in walk_own(ss.node) if isinstance(c, ast.Call) and dotted(c.func) == 're.search']
     pat = fold_in(ss, rx[0].args[0]) if rx else None
